@@ -167,7 +167,7 @@ def run_driver(exe, cases, workdir, per_run_timeout=120, crash_cap=25):
         if current is None:
             # died outside a case: machinery problem
             raise BuildFailure("driver", "driver exited rc=%s outside a case\n%s\n%s" % (rc, out[-1000:], err[-2000:]))
-        results[current] = {"crash": ("timeout" if timed_out else "exit %s" % rc), "stderr": err[-2500:],
+        results[current] = {"crash": ("timeout" if timed_out else "exit %s" % rc), "stderr": (err if len(err) <= 3000 else err[:2000] + "\n...\n" + err[-1000:]),
                             "partial": partial}
         first = index[current] + 1
         restarts += 1
